@@ -186,9 +186,15 @@ func amEventClass(e stun.Event) string {
 	}
 }
 
+// amTID is the i-th transaction id of the model's small id space. The ids are a family that is as alike as distinct ids
+// can be: same first word, and the second and third word differ by the same constant in all of them (so any table that
+// keys on a prefix, or folds the 96 bits into fewer by XOR-ing words, sees them as one).
 func amTID(i int8) (t [stun.TransactionIDSize]byte) {
-	for k := range t {
-		t[k] = 0xA0 + byte(i)
+	copy(t[:4], []byte{0xA0, 0xA1, 0xA2, 0xA3})
+	for k := 0; k < 4; k++ {
+		x := byte(0x10+int(i)) + byte(k)*0x11
+		t[4+k] = x
+		t[8+k] = x ^ 0x5C
 	}
 
 	return t
